@@ -240,6 +240,9 @@ class C04(Prop):
             for a in ctl['then'] + ctl.get('else', []):
                 kinds.setdefault((a['link'], a['attr']), []).append(ctl['kind'] + '.' + cond_kind(ctl))
         rows = inv.rows(out.tables)
+        if any(b <= a for a, b in zip(rows, rows[1:])):
+            # a time reported twice (or going back): a control acted at a wrong instant and the clock was rewound
+            return [V('c04.report_index_not_increasing', 'index', 'reported times %r' % (rows[:14],))]
         rowset = set(rows)
         midnight = (86400 - o.get('start_clocktime', 0)) % 86400
         for t, ch in changes:
